@@ -453,7 +453,7 @@ package types
 //@   ensures metakv[stdb][keyChainID] != 0 ==> result == metakv[stdb][keyChainID]                               [C03,C07]
 
 //@ func (stdb *MetaDB) PutLastBlockContext(ctx)
-//@   requires stdb != nil && ctx != nil
+//@   assumes ctx != nil
 //@   modifies everything
 //@   assert@call(put,0): $arg0 == stdb && $arg1 == keyBlockContext                                              [C01,C07]
 //@   assert@call(Marshal,0): istype($arg0, ptr(BlockContext)) && as($arg0, ptr(BlockContext)) == ctx           [C01,C07]
